@@ -151,6 +151,6 @@ def run(tier, seed):
 
 
 def replay(path, seed):
-    c = Check(PROP, "quick", seed, "model_checking")
+    c = Check(PROP, "quick", seed, "model_checking", replay=True)
     c.validate("wire", "WireTrace", "WireTrace.cfg", os.path.abspath(path), heap="12g")
     return c.finish()
